@@ -60,26 +60,43 @@ def close_pool():
 
 
 def _guard(job):
-    fn, arg = job
-    try:
-        return ("ok", fn(arg))
-    except Exception:
-        return ("err", traceback.format_exc())
+    """Run a chunk of items through fn; harness exceptions travel back as data."""
+    fn, args = job
+    out = []
+    for arg in args:
+        try:
+            out.append(("ok", fn(arg)))
+        except (Exception, SystemExit):
+            out.append(("err", traceback.format_exc()))
+            break
+    return out
 
 
 def pmap(fn, items, chunksize=None):
-    """Parallel unordered map; a harness exception in a worker is exit 2."""
+    """Parallel unordered map. A harness exception in a worker is exit 2; so is a pool that
+    stops delivering (e.g. a worker killed from outside) - never a hang, never a VIOLATION."""
     items = list(items)
     if not items:
         return []
     if chunksize is None:
         chunksize = max(1, min(64, len(items) // (NPROC * 8) or 1))
+    jobs = [(fn, items[i:i + chunksize]) for i in range(0, len(items), chunksize)]
     out = []
-    for tag, val in pool().imap_unordered(_guard, [(fn, it) for it in items], chunksize):
-        if tag == "err":
+    it = pool().imap_unordered(_guard, jobs, 1)      # chunksize 1 => IMapIterator with next(timeout)
+    stall = int(os.environ.get("VERIF_STALL_S", "2400"))
+    while True:
+        try:
+            part = it.next(timeout=stall)
+        except StopIteration:
+            break
+        except mp.TimeoutError:
             close_pool()
-            harness_error("worker raised:\n" + val)
-        out.append(val)
+            harness_error("process pool delivered no result for %d s (worker died or job stuck)" % stall)
+        for tag, val in part:
+            if tag == "err":
+                close_pool()
+                harness_error("worker raised:\n" + val)
+            out.append(val)
     return out
 
 
